@@ -191,7 +191,7 @@ func c13multi(c *Ctx) {
 	// how the sinks are handed over: flat, or with a consecutive group of them
 	// already combined into a multi-WriteSyncer of its own (first, last or
 	// middle position); the observable contract is the same
-	shape := g.Draw(4)
+	shape := g.Draw(5)
 	// who builds it: NewMultiWriteSyncer, CombineWriteSyncers (the same behind
 	// Lock), or zap.Open over sinks from a registered factory
 	via := g.Weighted(3, 1, 1)
@@ -281,6 +281,11 @@ func c13multi(c *Ctx) {
 			args = append([]zapcore.WriteSyncer(nil), ws[:lo]...)
 			args = append(args, zapcore.NewMultiWriteSyncer(ws[lo:hi]...))
 			args = append(args, ws[hi:]...)
+		}
+		if shape == 4 && k >= 4 {
+			// two groups: two elements of the multi are multis themselves
+			args = []zapcore.WriteSyncer{zapcore.NewMultiWriteSyncer(ws[0:2]...), zapcore.NewMultiWriteSyncer(ws[2:4]...)}
+			args = append(args, ws[4:]...)
 		}
 		given := append([]zapcore.WriteSyncer(nil), args...)
 		var m zapcore.WriteSyncer
